@@ -47,7 +47,7 @@ var c07T0 = int64(1700000000) * 1e9
 
 func (r *c07Replica) prestate() {
 	db := r.sm.store
-	// a KV and a hash that expire at T0+2s, a list, a set, a zset without expiry
+	// a KV, a hash, a list, a set and a zset that all expire at T0+2s
 	vsym.Assert(db.SetEx(c07T0, []byte("t:k"), 2, []byte("12")) == nil, "pre SETEX")
 	_, err := db.HSet(c07T0, false, []byte("t:h"), []byte("f"), []byte("1"))
 	vsym.Assert(err == nil, "pre HSET")
@@ -59,6 +59,13 @@ func (r *c07Replica) prestate() {
 	vsym.Assert(err == nil, "pre SADD")
 	_, err = db.ZAdd(c07T0, []byte("t:z"), common.ScorePair{Score: 1, Member: []byte("m")})
 	vsym.Assert(err == nil, "pre ZADD")
+	// the list, the set and the zset expire at T0+2s as well
+	n, err = db.LExpire(c07T0, []byte("t:l"), 2)
+	vsym.Assert(err == nil && n == 1, "pre LEXPIRE")
+	n, err = db.SExpire(c07T0, []byte("t:s"), 2)
+	vsym.Assert(err == nil && n == 1, "pre SEXPIRE")
+	n, err = db.ZExpire(c07T0, []byte("t:z"), 2)
+	vsym.Assert(err == nil && n == 1, "pre ZEXPIRE")
 }
 
 // c07Command: one well-formed write command (arities as the leader-side validators enforce them, C11).
@@ -91,6 +98,17 @@ func c07Command(tag string) [][]byte {
 		{b("del"), b("t:j"), b("t:k")}, // the per-partition form of a multi-key DEL
 		{b("set"), b("t:j"), val},
 		{b("hmset"), b("t:h"), b("f"), val},
+		{b("spop"), b("t:s")},
+		{b("lpop"), b("t:l")},
+		{b("sclear"), b("t:s")},
+		{b("lclear"), b("t:l")},
+		{b("zclear"), b("t:z")},
+		{b("zremrangebyrank"), b("t:z"), b("0"), b("0")},
+		{b("zremrangebyscore"), b("t:z"), b("0"), b("5")},
+		{b("ltrim"), b("t:l"), b("0"), b("0")},
+		{b("lset"), b("t:l"), b("0"), val},
+		{b("spersist"), b("t:s")},
+		{b("zexpire"), b("t:z"), b("3")},
 	}
 	return tmpl[vsym.Choose(tag, len(tmpl))]
 }
